@@ -172,6 +172,11 @@ def unit2Calls : List (String × String × String × String) := [
   ("Annotation", "write", "write_bytes", "f, self.data")
 ]
 
+def sectionDividerConditions : List (String × String × String) := [
+  ("SectionDividerSetting", "read", "is_readable(fp, 8); signature is not None and is_readable(fp, 4)"),
+  ("SectionDividerSetting", "write", "self.signature and self.blend_mode; self.sub_type is not None")
+]
+
 /-! ### unit 3: effects_layer.py -/
 
 def effectTypes : List (List UInt8 × String) := [([99, 109, 110, 83], "CommonStateInfo"), ([100, 115, 100, 119], "ShadowInfo"), ([105, 115, 100, 119], "ShadowInfo"), ([111, 103, 108, 119], "OuterGlowInfo"), ([105, 103, 108, 119], "InnerGlowInfo"), ([98, 101, 118, 108], "BevelInfo"), ([115, 111, 102, 105], "SolidFillInfo")]
